@@ -158,7 +158,7 @@ def behaviour(tier, seed):
         shutil.rmtree(d, ignore_errors=True)
         os.makedirs(d)
         write_crate(d, mods, 'hc_c18', features=sub)
-        kr, alive = run_kani(d, mods, target_dir, 300, need_stubbing=True, log=os.path.join(WORK, f'c18_{tier}.log'))
+        kr, alive = run_kani(d, mods, target_dir, 600, need_stubbing=True, log=os.path.join(WORK, f'c18_{tier}.log'))
         oc = evaluate('C18', tier, mods, kr, alive, d, target_dir, need_stubbing=True, features=sub)
         results.append((sub, len(mods), oc))
         for a in ('violations', 'known', 'inconclusive', 'unreplayed'):
